@@ -43,7 +43,9 @@ pub fn random_root(rng: &mut gen::R, corpus: &[Pos]) -> Pos {
                 gen::play(rng, &start, plies).1
             }
         };
-        if !p.legal_moves().is_empty() && p.imbalance() < 60.0 {
+        // roots whose capture search is predicted to explode belong to known finding F11 (C04);
+        // they would only burn the time box here
+        if !p.legal_moves().is_empty() && p.imbalance() < 60.0 && gen::q_cost(&p, 300_000) < 300_000 {
             return p;
         }
     }
